@@ -761,7 +761,9 @@ theorem yens_criterion_never_fires (t : KspTerm) {k n : Nat} (h : n < k) : t.ter
   | true => have := terminate_length ht; omega
 
 /-- `KspTerminationCriteria` from an object of the configuration: decided by the string under
-`"type"`; `max` / `factor` must be unsigned integers; unknown keys are ignored -/
+`"type"`; `max` / `factor` must be unsigned integers; unknown keys are ignored.  (By definition of the
+model — this and the two `term_config_…` theorems below unfold `KspTerm.ofJson`; that the code's serde
+derive behaves so is evidenced by the correspondence run of the `kterm` stream.) -/
 theorem term_config_object (kvs : List (String × Json)) :
     (Json.lookup kvs "type" = some (.str "exact") → KspTerm.ofJson (.obj kvs) = some .exact) ∧
     (Json.lookup kvs "type" = some (.str "max_iteration") →
@@ -822,7 +824,8 @@ theorem similarity_test_is_decision_of_rank [HasSqrt α] (f : SimFn α) (edges :
   Ksp.SimFn.test_eq f edges a b
 
 /-- `AcceptAll` ranks every pair 0 and is never similar; the cosine variants are similar exactly when
-`threshold ≤ rank` -/
+`threshold ≤ rank`.  (By definition of the model: unfolds `SimFn.rank` / `isSimilar`; tied to the code
+by the `ksim` correspondence stream.) -/
 theorem similarity_decision (thr r : α) (edges : List (EdgeRec α)) (a b : List Nat) [HasSqrt α] :
     (SimFn.acceptAll : SimFn α).rank edges a b = .ok zero ∧
     (SimFn.acceptAll : SimFn α).isSimilar r = false ∧
@@ -846,7 +849,8 @@ theorem similarity_fails_only_on_unknown_edge [HasSqrt α] (f : SimFn α) (edges
   Ksp.SimFn.rank_error f edges h
 
 /-- **a reverse query is refused** by both k-shortest-paths algorithms (vfix ca2baf1: it used to be
-answered as a forward query), as is a query without destination -/
+answered as a forward query), as is a query without destination.  (By definition of the model: the
+first tests of `singleViaVertex` / `yensVertex`; tied to the code by the correspondence run.) -/
 theorem ksp_reverse_query_refused (c : Config α) (hrev : c.reverse = true) (gcRev : List α)
     (sim : List Nat → List Nat → Except ErrKind Bool) (term : Option KspTerm) (kDefault : Nat)
     (queryK : Option Json) (source : Nat) (target : Option Nat) (fs rs pops : List Nat)
@@ -857,9 +861,12 @@ theorem ksp_reverse_query_refused (c : Config α) (hrev : c.reverse = true) (gcR
   | none => exact ⟨rfl, _, rfl, rfl⟩
   | some t => simp [singleViaVertex, yensVertex, hrev]
 
-/-- **`SearchAlgorithm` from an object of the configuration**: `k` (an unsigned integer) and
-`underlying` are required, `similarity` and `termination` may be absent or `null` (defaults
-`AcceptAll` / `Exact` at run time), a malformed sub-section refuses the whole section -/
+/-- **`SearchAlgorithm` from an object of the configuration** — stated for the `ksp_single_via` tag
+(`htype`) and, in the accepting clause, for `similarity` and `termination` absent: `k` (an unsigned
+integer) and `underlying` are required, a malformed `k` or a missing field refuses the whole section.
+(The docstring used to describe more than the statement: `null` sub-sections, malformed sub-sections
+and the `yens` tag are modelled in `AlgCfg.ofJson` and exercised by the correspondence run, not stated
+here.  By definition of the model.) -/
 theorem alg_config_object (num : Json → Option α) (d : Nat) (kvs : List (String × Json))
     (htype : Json.lookup kvs "type" = some (.str "ksp_single_via")) :
     (Json.lookup kvs "k" = none → AlgCfg.ofJson num (d + 1) (.obj kvs) = none) ∧
